@@ -1,0 +1,75 @@
+//! Verification hooks (compiled only with `--cfg pytest_language_server_verif`).
+//!
+//! Nothing in here changes behaviour unless the corresponding environment
+//! variable is set; without the cfg flag the module does not exist.
+
+#![allow(dead_code)]
+
+use super::FixtureDatabase;
+use std::io::Write;
+use std::path::{Path, PathBuf};
+use std::sync::atomic::{AtomicUsize, Ordering};
+use std::sync::Mutex;
+
+static EVENT_LOG: Mutex<Option<std::fs::File>> = Mutex::new(None);
+static GATE_SEQ: AtomicUsize = AtomicUsize::new(0);
+
+/// Append one line to the file named by `VERIF_EVENT_LOG` (if set).
+pub fn event(kind: &str, path: &Path) {
+    let Ok(log_path) = std::env::var("VERIF_EVENT_LOG") else {
+        return;
+    };
+    let mut guard = EVENT_LOG.lock().unwrap_or_else(|e| e.into_inner());
+    if guard.is_none() {
+        *guard = std::fs::OpenOptions::new()
+            .create(true)
+            .append(true)
+            .open(&log_path)
+            .ok();
+    }
+    if let Some(f) = guard.as_mut() {
+        let _ = writeln!(
+            f,
+            "{:?}\t{}\t{}",
+            std::thread::current().id(),
+            kind,
+            path.display()
+        );
+        let _ = f.flush();
+    }
+}
+
+/// Scan failpoint. With `VERIF_SCAN_GATE=<dir>` and `VERIF_SCAN_GATE_MATCH=<substring>`
+/// a scan worker about to read a matching file writes `<dir>/visit.<n>` and waits
+/// (bounded) for `<dir>/go.<n>`. Returns the sequence number it used, if gated.
+pub fn scan_gate(path: &Path) -> Option<usize> {
+    let dir = PathBuf::from(std::env::var("VERIF_SCAN_GATE").ok()?);
+    let needle = std::env::var("VERIF_SCAN_GATE_MATCH").ok()?;
+    if !path.to_string_lossy().contains(&needle) {
+        return None;
+    }
+    let n = GATE_SEQ.fetch_add(1, Ordering::SeqCst);
+    let _ = std::fs::write(dir.join(format!("visit.{n}")), path.to_string_lossy().as_bytes());
+    let go = dir.join(format!("go.{n}"));
+    for _ in 0..15_000 {
+        if go.exists() {
+            break;
+        }
+        std::thread::sleep(std::time::Duration::from_millis(2));
+    }
+    Some(n)
+}
+
+/// Second half of the failpoint: the gated file has been analysed by the scan.
+pub fn scan_gate_done(n: Option<usize>) {
+    if let (Some(n), Ok(dir)) = (n, std::env::var("VERIF_SCAN_GATE")) {
+        let _ = std::fs::write(PathBuf::from(dir).join(format!("done.{n}")), b"");
+    }
+}
+
+impl FixtureDatabase {
+    /// Public wrapper for the scan's no-cleanup analysis path.
+    pub fn verif_analyze_file_fresh(&self, file_path: PathBuf, content: &str) {
+        self.analyze_file_fresh(file_path, content);
+    }
+}
